@@ -68,6 +68,7 @@ func main() {
 	viewsDesign := fl.Bool("views-design", false, "a design of result types with views (C08)")
 	grpcDesign := fl.Bool("grpc-design", false, "a design with gRPC endpoints (C10)")
 	aliasDesign := fl.Bool("alias-design", false, "primitive alias types with validations, attributes with their own Enum (C02-C04)")
+	anyDesign := fl.Bool("any-design", false, "the type Any as payload, result, element, attribute, parameter and header; odd designs without examples (C01, C07)")
 	mapkeyDesign := fl.Bool("mapkey-design", false, "every primitive as a map key, in request body / response body / query string (C01)")
 	loose := fl.Bool("loose-defaults", false, "with -matrix-design: collection defaults given as []any / map[string]any")
 	matrixDesign := fl.Bool("matrix-design", false, "the systematic transport table: primitive x location x required/optional/default (C02-C04)")
@@ -89,6 +90,12 @@ func main() {
 		}
 		if *aliasDesign {
 			d := design.GenerateAlias(lp.NewRng(*seed*1000003+uint64(*index)+29), *index)
+			b, _ := json.Marshal(d)
+			fmt.Println(string(b))
+			return
+		}
+		if *anyDesign {
+			d := design.GenerateAny(lp.NewRng(*seed*1000003+uint64(*index)+37), *index)
 			b, _ := json.Marshal(d)
 			fmt.Println(string(b))
 			return
